@@ -344,7 +344,7 @@ class BitEval:
             if isinstance(e.value, ast.Name) and e.value.id == "self" and self.ci is not None:
                 r = self.repo.lookup(self.ci, e.attr)
                 if r and r[1] == "property" and r[2][0] is not None:
-                    ret = _ret_expr(r[2][0])
+                    ret = self._flat_ret(r[2][0], r[0] if hasattr(r[0], "methods") else self.ci)
                     if ret is not None:
                         return self.ev(ret, depth + 1)
             if e.attr == "value":
@@ -414,7 +414,7 @@ class BitEval:
                 and not e.args and not e.keywords:
             r = self.repo.lookup(self.ci, e.func.attr)
             if r and r[1] == "method":
-                ret = _ret_expr(r[2])
+                ret = self._flat_ret(r[2], r[0] if hasattr(r[0], "methods") else self.ci)
                 if ret is not None:
                     return self.ev(ret, depth + 1)
         # Enum(x) -> identity on bits
@@ -422,6 +422,19 @@ class BitEval:
         if owner is not None and self.repo.is_enum(owner) and len(e.args) == 1:
             return self.ev(e.args[0], depth + 1)
         raise Unsupported(norm(e))
+
+    def _flat_ret(self, fn: ast.FunctionDef, owner) -> Optional[ast.expr]:
+        """The single expression a getter / argument-less helper returns, private helpers it calls read through."""
+        ret = _ret_expr(fn)
+        try:
+            from . import inline
+            flat = inline.normalize(self.repo, owner, fn)
+            r2 = inline.as_expression(flat)
+            if r2 is not None:
+                return r2
+        except Exception:
+            pass
+        return ret
 
     def _clamp(self, e: ast.Call) -> Optional[BV]:
         """max(lo, min(v, hi)) / min(hi, max(v, lo)) with constant 0 <= lo <= hi."""
